@@ -1179,6 +1179,10 @@ func TestVerifC06Histories(t *testing.T) {
 		rec.Label("pre=" + sc.Pre + fmt.Sprintf("/referenced=%v", sc.Referenced))
 		w := newWorld(sc, func(f string, a ...any) { t.Fatalf(f, a...) })
 		w.excluded = rec.Excluded
+		// The history starts at a generated stage (reached by fault-free steps).
+		start := rapid.SampledFrom([]string{"fresh", "fresh", "fresh", "steady", "gone", "gone+recreated"}).Draw(t, "start")
+		rec.Label("history-start=" + start)
+		w.prefix(start)
 		n := rapid.IntRange(1, 10).Draw(t, "nsteps")
 		var hist []step
 		nontrivial := (sc.Pre == preForeignOrganic || sc.Pre == preForeignDangling) && sc.Referenced
